@@ -30,7 +30,7 @@ RULE = (
     "absent key, or the fill loop needed >= 2 rounds."
 )
 ASSUMPTIONS = ["dictionaries without dangling template references; random programs carry no domains (premise of validate/evaluate agreement, C10)"]
-FLOORS = {"explain_ok": (8000, 150000), "explain_with_missing": (3000, 60000), "no_missing_and_validates": (2500, 50000),
+FLOORS = {"effect_option_cases": (576, 576), "effect_option_cases_effects_off": (192, 192), "explain_ok": (8000, 150000), "explain_with_missing": (3000, 60000), "no_missing_and_validates": (2500, 50000),
           "explain_insufficient_information": (300, 6000), "fill_loops_completed": (400, 8000), "fill_loops_multi_round": (3, 30),
           "subdictionary_cases": (4000, 80000)}
 SHARDS_QUICK = 4
@@ -131,33 +131,84 @@ def fill_loop(ctx, program, full, G, sel, tag):
 
 
 def effect_case(ctx):
-    """An effect that needs an option: explain() must list it (validate() fails without it)."""
-    from labrea import Option, dataset
+    """Effects that need options of their own (an Evaluatable effect, a pipeline step with an option parameter; attached
+    at definition, by add_effects, on a bare Computation, below another dataset) under every sub-dictionary and every
+    state of the effects switch (unset / false / true option, per-dataset toggle): the absent keys explain() lists are
+    exactly what validate() still needs, keys() is covered, a validate failure names a listed key."""
+    import itertools
 
-    @dataset(effects=[Option("CB")])
-    def d(a=Option("A", 1)):
-        return a
+    from labrea import Option, dataset, pipeline_step
+    from labrea.computation import CallbackEffect, Computation
 
-    class P:  # minimal stand-in for the spec-based plumbing of one()
-        pass
+    @pipeline_step
+    def audit(value, target=Option("T.X"), mode=Option("B", "m")):
+        return None
 
-    for o in ({}, {"A": 2}, {"CB": print}, {"A": 2, "CB": print}):
-        explained = set(d.explain(dict(o)))
-        try:
-            d.validate(dict(o))
-            ok = True
-        except Exception as e:  # noqa: BLE001
-            ok = False
-            knf = [x for x in chain(e) if type(x).__name__ == "KeyNotFoundError"]
-            if knf and knf[-1].key not in explained:
-                ctx.violation("validate-names-unlisted-key", f"dataset with an option-reading effect: validate fails for {knf[-1].key!r}, explain lists {sorted(explained)}", {"options": repr(o)})
-                return
-        missing = {k for k in explained if k not in o}
-        ctx.evaluations += 2
-        ctx.count("effect_option_cases")
-        if bool(missing) == ok:
-            ctx.violation("explain-validate-disagree-on-effect-option", f"explain lists absent {sorted(missing)}, validate passes={ok}", {"options": repr(o)})
-            return
+    def sink(value):
+        return None
+
+    def graphs():
+        @dataset(effects=[Option("CB")])
+        def at_definition_evaluatable(a=Option("A", 1)):
+            return a
+
+        @dataset(effects=[audit])
+        def at_definition_step(a=Option("A")):
+            return a
+
+        @dataset
+        def added_later(a=Option("A")):
+            return a
+
+        added_later.add_effects(audit, Option("CB"))
+
+        @dataset.nocache
+        def downstream(x=at_definition_step, c=Option("C", 0)):
+            return (x, c)
+
+        @dataset(effects=[audit])
+        def toggled(a=Option("A")):
+            return a
+
+        toggled.disable_effects()
+        return {"effects=[Option]": at_definition_evaluatable, "effects=[step]": at_definition_step, "add_effects": added_later,
+                "downstream": downstream, "Computation": Computation(Option("A"), CallbackEffect(audit)), "toggled-off": toggled}
+
+    full = {"A": 2, "CB": sink, "T": {"X": "t"}, "B": "b", "C": 3}
+    paths = ["A", "CB", "T.X", "B", "C"]
+    for name in graphs():
+        for r_ in range(len(paths) + 1):
+            for present in itertools.combinations(paths, r_):
+                for switch in ("unset", False, True):
+                    g = graphs()[name]
+                    o = {}
+                    for k in present:
+                        o = U.set_path(o, k, U.lookup(k, full))
+                    if switch != "unset":
+                        o = {**o, "LABREA": {"EFFECTS": {"DISABLED": switch}}}
+                    W = {"family": "effect-options", "graph": name, "options": repr(o)}
+                    ex = observe(g.explain, dict(o))
+                    ks = observe(g.keys, dict(o))
+                    va = observe(g.validate, dict(o))
+                    ctx.evaluations += 3
+                    ctx.count("effect_option_cases")
+                    if ex[0] != "ok":
+                        ctx.violation("explain-raises-other-error", f"{name}: explain failed: {short(ex)}", W)
+                        return
+                    explained = {k[1] for k in ex[1][1]}
+                    missing = {k for k in explained if not U.present(k, o)}
+                    if ks[0] == "ok" and not {k[1] for k in ks[1][1]} <= explained:
+                        ctx.violation("explain-misses-keys", f"{name}: keys {short(ks)} not covered by explain {sorted(explained)}", W)
+                        return
+                    if bool(missing) == (va[0] == "ok"):
+                        ctx.violation("explain-validate-disagree-on-effect-option", f"{name} on {short(o)}: explain lists absent {sorted(missing)}, validate {'passes' if va[0] == 'ok' else 'fails: ' + short(va)}", W)
+                        return
+                    if va[0] == "err" and va[1] == "KeyNotFoundError" and va[2] not in explained:
+                        ctx.violation("validate-names-unlisted-key", f"{name}: validate fails for {va[2]!r}, explain lists {sorted(explained)}", W)
+                        return
+                    if switch is True:
+                        ctx.count("effect_option_cases_effects_off")
+                    ctx.nontrivial(spec_hash(["effect-options", name, sorted(present), str(switch)]))
 
 
 def run(ctx):
